@@ -38,6 +38,11 @@ temporary directory (one file per wind field; see ``vf/ref/c16_wind.py``):
   :59:59, :59:59.999999): the wind is that of the day's file and of the hourly slice the time
   stamp falls into.
 
+* every way of naming the data directory (absolute / relative to the working directory /
+  './' relative; str / Path; with and without a same-named directory on the configured
+  search path whose files for the same dates carry different winds) x file (present locally,
+  present only below the search path): the wind is that of the local file when it exists.
+
 Every case builds its own Weather object(s), so a case is self-contained and replays in a
 fresh process; the calls of the first four families are grouped so that one case asks one
 object for the same point several times (different headings / airspeeds).
@@ -81,7 +86,10 @@ ASSUMPTIONS = [
     'outside the extreme pressure levels (the 1-ulp neighbourhood of the extreme levels is not examined); a '
     'refusal is any exception raised by the call (ValueError in practice)',
     'a time stamp whose date has no file in the data directory is outside the data domain (refusal = any '
-    'exception, FileNotFoundError in practice); time stamps are timezone-aware UTC; for a time that is not a full hour the '
+    'exception, FileNotFoundError in practice); a data directory named by a relative path is relative '
+    'to the working directory, and an existing local file wins over a same-named file below the configured search path '
+    '(Config.file_location: "checking local and configured paths"), which is consulted only when the local file does not '
+    'exist; time stamps are timezone-aware UTC; for a time that is not a full hour the '
     'wind is that of the hourly slice whose index is the hour of the time stamp ("hour of departure" in the code; no '
     'interpolation in time): a value matching the FOLLOWING slice instead is reported as kind time-slice, anything else as '
     'vector-sum; longitudes use the same -180..180 convention as the file',
@@ -154,10 +162,27 @@ def _date(fid):
 _DATA = {'dir': None}
 
 
+# how the data directory is named: a working directory with a local 'c16wx' directory, and a
+# root that can be put on the configured search path holding a same-named 'c16wx' directory
+# whose files for the same dates carry DIFFERENT winds (file id -> field of the decoy file);
+# 'W10' exists only below the search-path root.
+DIR_NAME = 'c16wx'
+DIR_LOCAL = ['calm', 'E10', 'ml1']
+DIR_DECOY = {'calm': 'S50', 'E10': 'N50', 'ml1': 'ml2', 'W10': 'W10'}
+
+
 def _write_all():
     d = tempfile.mkdtemp(prefix='vf_c16_')
     for fid, e in CATALOGUE.items():
         W.write_file(os.path.join(d, _date(fid) + '.nc'), e['spec'], e['time_axis'], e['ascending'], DAY0 + 86400 * e['offset'])
+    os.makedirs(os.path.join(d, 'local_root', DIR_NAME))
+    os.makedirs(os.path.join(d, 'decoy_root', DIR_NAME))
+    for fid in DIR_LOCAL:
+        e = CATALOGUE[fid]
+        W.write_file(os.path.join(d, 'local_root', DIR_NAME, _date(fid) + '.nc'), e['spec'], False, False, DAY0 + 86400 * e['offset'])
+    for fid, other in DIR_DECOY.items():
+        e = CATALOGUE[fid]
+        W.write_file(os.path.join(d, 'decoy_root', DIR_NAME, _date(fid) + '.nc'), CATALOGUE[other]['spec'], False, False, DAY0 + 86400 * e['offset'])
     return d
 
 
@@ -237,6 +262,16 @@ TOD_WITHIN = [[0, 0, 0], [0, 0, 1], [0, 1, 0], [29, 0, 0], [29, 59, 999999], [30
 TOD_FILES = ['rot', 'ml-rot', 'ml1', 'sep30', 'oct01', 'dec31', 'jan01', 'feb29', 'no-file-between']
 TOD_HEADINGS = [45.0, 0.0]
 
+# naming of the data directory: [name, absolute?, Path object?, prefix, decoy root on the search path?]
+DIR_NAMINGS = [
+    ['absolute-str', True, False, '', False], ['absolute-Path', True, True, '', False],
+    ['absolute-str+decoy-on-path', True, False, '', True],
+    ['relative-str', False, False, '', False], ['relative-Path', False, True, '', False],
+    ['relative-str+decoy-on-path', False, False, '', True], ['relative-Path+decoy-on-path', False, True, '', True],
+    ['dot-relative-str+decoy-on-path', False, False, './', True],
+]
+DIR_HEADINGS = [45.0, 0.0]
+
 SEQ_STAMPS = [['E10', 0], ['E10', 12], ['rot', 0], ['rot', 5], ['rot', 23], ['rot-next-month', 5], ['N50', 5], ['no-file-between', 5], ['rot', [5, 40, 0, 0]]]
 SEQ_CORE = [0, 2, 3, 5, 7, 8]  # indices into SEQ_STAMPS
 SEQ_QUERY = {'h': 45.0, 'tas': 200.0, 'alt': 9144.0, 'lon': -77.0, 'lat': 41.0}  # heading 45: sin = cos
@@ -306,6 +341,12 @@ def sublattices(tier, seed):
         'name': 'files with a 24-hour time axis x hour; calls: headings',
         'axes': {'field': ['rot', 'rot-next-month', 'nodal-t', 'ml-rot'], 'hour': hours, 'calls_heading': hc},
         'cases': cases,
+    })  # fmt: skip
+    dfiles = DIR_LOCAL + ['W10']
+    subs.append({
+        'name': 'how the data directory is named x file (local file / same-named decoy on the search path / only on the search path)',
+        'axes': {'naming': [n[0] for n in DIR_NAMINGS], 'file': dfiles, 'decoy_winds': DIR_DECOY, 'calls_heading': DIR_HEADINGS, 'airspeed': [200.0, 0.0]},
+        'cases': [{'k': 'dir', 'naming': n[0], 'f': f, 'tas': t, 'alt': alt0, 'pos': pos0} for n in DIR_NAMINGS for f in dfiles for t in (200.0, 0.0)],
     })  # fmt: skip
     thours = TOD_HOURS + [INT_HOUR[seed % 8]]
     subs.append({
@@ -616,6 +657,59 @@ def _run_tod(case):
     return {'outcome': _outcome('tod', classes), 'nontrivial': True, 'violations': out}
 
 
+def _run_dir(case):
+    """The file that must supply the wind (unchanged code and docstrings: "checking local and
+    configured paths", local first): the file below the directory as named - relative names are
+    relative to the working directory - and only if that does not exist, the same relative name
+    below the configured search path."""
+    from pathlib import Path
+
+    from vf import env
+
+    out, classes = [], []
+    name, absolute, as_path, prefix, decoy = next(n for n in DIR_NAMINGS if n[0] == case['naming'])
+    fid, tas = case['f'], case['tas']
+    (_, alt), (_, lon, lat) = case['alt'], case['pos']
+    root = _STATE['dir']
+    local = os.path.join(root, 'local_root')
+    arg = os.path.join(local, DIR_NAME) if absolute else prefix + DIR_NAME
+    arg = Path(arg) if as_path else arg
+    if fid in DIR_LOCAL:
+        exp = _expect(fid, 12, lon, lat, alt)  # the local file carries the catalogue field of fid
+        src = 'the local file'
+    elif decoy and not absolute:
+        exp = _expect(DIR_DECOY[fid], 12, lon, lat, alt)
+        src = 'the file below the search path (no local file for that date)'
+    else:
+        exp = ('outside', 'there is no file for that date below the named directory or the search path')
+        src = 'no file'
+    old_cwd, old_env = os.getcwd(), os.environ.get('AEIC_PATH')
+    try:
+        os.chdir(local)
+        if decoy:
+            os.environ['AEIC_PATH'] = os.path.join(root, 'decoy_root') + os.pathsep + str(env.TEST_DATA)
+        env.load_config()
+        try:
+            wx = _STATE['Weather'](data_dir=arg)
+        except Exception as ex:  # noqa: BLE001
+            return {'outcome': 'dir:constructor-refused', 'nontrivial': True,
+                    'violations': [V('refused-inside', f'Weather(data_dir={arg!r}) in {local}: {type(ex).__name__}: {str(ex)[:200]}')]}  # fmt: skip
+        for n, hd in enumerate(DIR_HEADINGS):
+            what = (f'call {n + 1}: Weather(data_dir={arg!r}) [{name}], working directory holds {DIR_NAME}/ with {DIR_LOCAL}, search path '
+                    f'{"holds a same-named directory with other winds " + str(DIR_DECOY) if decoy else "has no such directory"}; wind must come from {src}: '
+                    f'get_ground_speed(date of {fid}, ({lon}, {lat}), altitude {alt!r} m, TAS {tas}, heading {hd})')  # fmt: skip
+            r = _call(wx, fid, 12, lon, lat, alt, tas, hd, 'explicit')
+            classes.append(_check_call(r, exp, tas, hd, what, out))
+    finally:
+        os.chdir(old_cwd)
+        if old_env is None:
+            os.environ.pop('AEIC_PATH', None)
+        else:
+            os.environ['AEIC_PATH'] = old_env
+        env.load_config()
+    return {'outcome': _outcome('dir', classes), 'nontrivial': True, 'violations': out}
+
+
 def replay(case):
     """A case is self-contained (own Weather objects). Defects that depend on the interpreter's
     memory layout (e.g. a cache keyed on id()) may need several attempts to show again."""
@@ -626,7 +720,7 @@ def replay(case):
     return []
 
 
-_RUN = {'tod': _run_tod, 'alt': _run_alt, 'grp': _run_grp, 'rot': _run_rot, 'seq': _run_seq, 'rep': _run_rep}
+_RUN = {'dir': _run_dir, 'tod': _run_tod, 'alt': _run_alt, 'grp': _run_grp, 'rot': _run_rot, 'seq': _run_seq, 'rep': _run_rep}
 
 
 def run_case(case):
